@@ -36,7 +36,8 @@ WidthAt(j) ==          \* j in 1..(32 * 2 * 3)
 AlGrid == <<<<1, 0>>, <<1, 1>>, <<1, 2>>, <<2, 0>>, <<2, 1>>, <<3, 0>>, <<1, 6>>, <<1, 7>>, <<1, 8>>,
             <<11, 0>>, <<12, 0>>, <<5, 1>>, <<4, 1>>, <<1, 60>>, <<3, 7>>,
             <<1, 1985>>, <<1, 1986>>, <<2850, 0>>, <<2849, 0>>>>
-NAlGrid == IF Thorough THEN Len(AlGrid) ELSE Len(AlGrid) - 4
+\* (the four shapes around 2^16 were thorough-only until round H: seed C07-access-list-sizes-precomputed... lives in [2^16, 2^17))
+NAlGrid == Len(AlGrid)
 AlGridAt(j) ==
   LET kind == Kinds[2 + (j % 2)]
       g    == AlGrid[j]
